@@ -51,6 +51,20 @@ def _init_attr_values(repo, cq):
     return out
 
 
+def _unwrap_iter(v):
+    """namedtuple("T", list(d)) == namedtuple("T", tuple(d)) == namedtuple("T", d): the field names are the iteration order of d."""
+    import copy
+    v = copy.deepcopy(v)
+    if isinstance(v, ast.Call) and dotted(v.func) in DYN_CTORS and len(v.args) >= 2:
+        a = v.args[1]
+        while isinstance(a, ast.Call) and dotted(a.func) in ("list", "tuple") and len(a.args) == 1 and not a.keywords:
+            a = a.args[0]
+        if isinstance(a, ast.Call) and isinstance(a.func, ast.Attribute) and a.func.attr == "keys" and not a.args:
+            a = a.func.value
+        v.args[1] = a
+    return v
+
+
 def _is_dynamic_class(v):
     return (isinstance(v, ast.Call) and dotted(v.func) in DYN_CTORS) or isinstance(v, ast.Lambda)
 
@@ -301,8 +315,8 @@ def r1_buffers(ck, repo, nf):
                 if a in transformed:
                     continue  # decided (or declared undecidable) with the transformation
                 ck.need(a in init_vals, f"{cq}: `{a}` rebuilt in __setstate__ but never set in __init__")
-                got = nf.poly(v, Scope(None, omi, {}, cq), None).canon()
-                want = nf.poly(init_vals[a][0], Scope(None, init_vals[a][1], {}, cq), None).canon()
+                got = nf.poly(_unwrap_iter(v), Scope(None, omi, {}, cq), None).canon()
+                want = nf.poly(_unwrap_iter(init_vals[a][0]), Scope(None, init_vals[a][1], {}, cq), None).canon()
                 okv = got == want
                 oko = restored_at is not None and i > restored_at
                 ck.ob("R1-pickling-symmetry", cq, f"rebuilt:{a}", okv and oko, f"self.{a} = {short(v, 60)} ({'after' if oko else 'before'} the dict is restored); __init__: {short(init_vals[a][0], 60)}",
@@ -424,11 +438,12 @@ def r3_checkpoints(ck, repo, nf):
         saves = _calls(cfg, lambda c: isinstance(c.func, ast.Attribute) and c.func.attr == "save" and dotted(c.func.value) == "self.checkpointer")
         ck.need(len(saves) == 1, f"{site}: expected one self.checkpointer.save call")
         n, c = saves[0]
-        modelp = positional_params(fn)[-1]
-        kind = _state_kind(cfg, n.id, c.args[1], {modelp}) if len(c.args) > 1 else ("unknown", "")
+        pps = [p_ for p_ in positional_params(fn) if p_ != "self"]
+        kind = _state_kind(cfg, n.id, c.args[1], set(pps)) if len(c.args) > 1 else ("unknown", "")
         if kind[0] == "unknown":
             raise AnalysisError(f"{site}: provenance of the saved object `{kind[1]}` not recognised")
-        ok = kind == ("full", modelp)
+        ok = kind[0] == "full" and kind[1] in pps
+        modelp = kind[1] if ok else (pps[-1] if pps else "model")
         ck.ob("R3-checkpoints", site, "saves-full-state", ok, f"save(.., {short(c.args[1])}) <- {kind[0]} state of `{kind[1] if isinstance(kind[1], str) else ''}`",
               "" if ok else "the checkpoint must contain the complete module state: a variable filter (e.g. nnx.Param) drops non-parameter variables such as the tanh heads' action_scale / action_bias, which then come from the template on restore", loc(mi, c))
         waits = _calls(cfg, lambda c: isinstance(c.func, ast.Attribute) and c.func.attr == "wait_until_finished" and dotted(c.func.value) == "self.checkpointer")
